@@ -7,7 +7,7 @@ from collections import Counter
 
 from .core import EventLog, Tapes, use_repo
 from .fs import SimDisk, patched_fs
-from .loop import new_loop
+from .loop import SimCrash, new_loop
 
 use_repo()
 from aiomysensors.model.node import Child, Node  # noqa: E402
@@ -36,6 +36,8 @@ class PWorld:
         """Run a coroutine to completion (or crash / hang). Returns (kind, value)."""
         t = self.loop.create_task(coro)
         self.loop.run_until_idle(horizon)
+        if t.done() and not t.cancelled() and isinstance(t.exception(), SimCrash):
+            self.loop.crashed = True  # the process died in a synchronous file-system call on the loop thread
         if self.loop.crashed:
             return "crash", None
         if not t.done():
